@@ -276,14 +276,6 @@ func contractsHex(ws worldSpec) string {
 	return sb.String()
 }
 
-type runA struct {
-	o   outcome
-	st  *state.StateDB
-	rec *recDB
-	tr  *tracer
-	pre *digest
-}
-
 // checkCase evaluates one case completely.
 func checkCase(t vstat.TB, cd *caseData) {
 	vstat.Eval()
